@@ -122,8 +122,9 @@ PROPS = {
 MANIFEST_TEXT = {
     "C01": dict(
         text="Lean theorems C01_roundtrip (encode then decode = the frame as seen over the wire, all 8 MTypes, FOpts <= 15 bytes, any FRMPayload length), C01_encode_total (an explicit decidable spec-validity predicate implies the encoder accepts), "
-             "C01_valid_roundtrip, C01_commands (the decoded opaque FOpts / port-0 bytes decode to the sender's commands, via the C07 stream theorem). The model is tied to the Go code by encode+decode runs on generated frames.",
-        note="Trusted: Lean kernel; Spec.frameValid / Spec.wire definitions (LW/Spec/Frame.lean); base64 is modelled, not proved. The join-accept payload round trip through decryption (CFList stripping of trailing zero masks) is compared at run time only.",
+             "C01_valid_roundtrip, C01_commands (the decoded opaque FOpts / port-0 bytes decode to the sender's commands, via the C07 stream theorem), C01_joinaccept_roundtrip / C01_cflist_roundtrip (stand-alone join-accept payload, both CFList kinds), "
+             "C01_base64 (base64 StdEncoding text of ANY byte string decodes to it) and C01_text_roundtrip (every spec-valid frame has a text form that decodes to the frame). The model is tied to the Go code by encode+decode runs (binary and text) on generated frames.",
+        note="Trusted: Lean kernel; Spec.frameValid / Spec.wire definitions (LW/Spec/Frame.lean); the base64 model of encoding/base64 (compared per op). Channel-mask CFLists are canonical up to trailing zero masks (hypothesis cfListCanonical).",
         technique="Lean 4 proof (encode/decode round trip on the model) + differential correspondence"),
     "C02": dict(
         text="Lean theorems for EVERY block cipher: C02_up / C02_down (model MIC = specification B0/B1 CMAC, ACK gating, ConfFCnt mod 2^16, 1.0 vs 1.1 composition), C02_validate_*_iff, C02_set_validate_*, C02_validateF, "
